@@ -371,6 +371,9 @@ SUBJECTS = {
     'N': lambda: None, 'f15': lambda: 1.5, 'f0': lambda: 0.0, 'c12': lambda: 1 + 2j,
     'sab': lambda: 'ab', 'se': lambda: '', 'bab': lambda: b'ab', 'ba': lambda: bytearray(b'ab'),
     'l0': lambda: [], 'l1': lambda: [0], 'l2': lambda: [0, 1], 'l3': lambda: [0, 1, 2], 'lab': lambda: ['ab', 0],
+    'l4': lambda: [0, 1, 2, 3], 'l5': lambda: [0, 1, 2, 3, 4], 'l7': lambda: [0, 1, 2, 3, 4, 5, 6],
+    't3': lambda: (0, 1, 2), 't4': lambda: (0, 1, 2, 3), 't6': lambda: (0, 1, 2, 3, 4, 5), 'rng5': lambda: range(5),
+    'myseq5': lambda: MySeq([0, 1, 2, 3, 4]), 'dkl': lambda: {'k': [0, 1, 2, 3, 4]},
     'lnest': lambda: [[0], 'ab'], 't0': lambda: (), 't1': lambda: (0,), 't2': lambda: (0, 1), 'tn': lambda: (None, 0),
     'dq': lambda: _collections.deque([0, 1]), 'rng': lambda: range(2), 'arr': lambda: _array.array('i', [0, 1]),
     'myseq': lambda: MySeq([0, 1]), 'virtseq': lambda: VirtSeq([0, 1]), 'notseq': lambda: NotSeq([0, 1]),
